@@ -107,18 +107,21 @@ func r107(c *Ctx, r *R) {
 	for _, s := range sites {
 		f := s.Parent()
 		b := s.Block()
-		// innermost loop header: a block that dominates b and is reachable from b
+		// innermost natural loop containing the call
 		var header *ssa.BasicBlock
-		for d := b.Idom(); d != nil; d = d.Idom() {
-			if blockReaches(b, d) {
-				header = d // outermost enclosing loop header found so far
+		for d := b; d != nil; d = d.Idom() {
+			if inNaturalLoop(b, d) {
+				header = d
+				break
 			}
 		}
 		if header == nil {
 			r.Und("sweep:"+f.Name(), s.Pos(), "the re-pin call in %s is not inside a loop", f.Name())
 			continue
 		}
-		// a return reachable from the call without going back to the header
+		// after the call every path must come back to the loop header
+		// before leaving the loop: neither a return nor a break may depend
+		// on the outcome of one re-pin
 		bad := false
 		seen := map[*ssa.BasicBlock]bool{}
 		var walk func(x *ssa.BasicBlock)
@@ -127,6 +130,10 @@ func r107(c *Ctx, r *R) {
 				return
 			}
 			seen[x] = true
+			if !inNaturalLoop(x, header) {
+				bad = true // left the loop without passing the header
+				return
+			}
 			if _, ok := x.Instrs[len(x.Instrs)-1].(*ssa.Return); ok && x != f.Recover {
 				bad = true
 			}
@@ -140,7 +147,7 @@ func r107(c *Ctx, r *R) {
 		if _, ok := b.Instrs[len(b.Instrs)-1].(*ssa.Return); ok {
 			bad = true
 		}
-		r.Check(!bad, "sweep:"+f.Name(), s.Pos(), "after re-pinning one pin the sweep always continues with the next", f.Name()+" can stop the sweep after one re-pin (a return inside the loop): one pin that cannot be re-allocated leaves all later pins on the failed/removed peer")
+		r.Check(!bad, "sweep:"+f.Name(), s.Pos(), "after re-pinning one pin the sweep always continues with the next", f.Name()+" can stop the sweep after one re-pin (a return or break inside the loop): one pin that cannot be re-allocated leaves all later pins on the failed/removed peer")
 	}
 	sort.Strings(nil)
 }
@@ -412,4 +419,75 @@ func r158(c *Ctx, r *R) {
 			})
 		}
 	}
+}
+
+func init() {
+	register(&Rule{ID: "R17.6", Props: []string{"C17"}, Floor: 3, Title: "a removed peer's raft data is really discarded: the backup rotation vacates the oldest slot recursively before renaming, the data folder is moved or removed on every cleaning path, and no flat os.Remove is used on these folders", Run: r176})
+}
+
+// r176: "a removed peer ... discards its consensus data" (C17). CleanupRaft
+// either removes the folder (no snapshot) or rotates it into the backups.
+// The rotation renames name.old.(i-1) -> name.old.i, so the last slot must
+// be free: it is either new or was removed with os.RemoveAll (backups are
+// non-empty directories; os.Remove fails on them and the rename that
+// follows fails with EEXIST, leaving the live data in place).
+func r176(c *Ctx, r *R) {
+	mb := c.fn(r, "consensus/raft", "dataBackupHelper.makeBackup")
+	cr := c.fn(r, "consensus/raft", "CleanupRaft")
+	if mb == nil || cr == nil {
+		return
+	}
+	// no flat remove anywhere in the package's non-test code
+	n := 0
+	c.P.RepoFuncs(func(f *ssa.Function) {
+		if f.Pkg == nil || f.Pkg.Pkg.Path() != ModPath+"/consensus/raft" {
+			return
+		}
+		for _, ci := range findCalls(f, false, "=os.Remove") {
+			n++
+			r.Bad("flat-remove:"+f.Name(), ci.Pos(), "%s removes a path with os.Remove: raft data and backup folders are non-empty directories, the call fails and the stale data stays", f.Name())
+		}
+	})
+	if n == 0 {
+		r.OK("flat-remove", mb.Pos(), "no os.Remove in consensus/raft (folders are removed with os.RemoveAll)")
+	}
+	// the rotation: a RemoveAll under len(backups) >= keep, before the renames
+	rm := findCalls(mb, false, "=os.RemoveAll")
+	rn := findCalls(mb, false, "=os.Rename")
+	okRm := false
+	for _, x := range rm {
+		before := true
+		for _, y := range rn {
+			if !(x.Block() != y.Block() && blockReaches(x.Block(), y.Block()) || x.Block() == y.Block() && dominatesInstr(x, y)) {
+				before = false
+			}
+		}
+		if before && len(rn) > 0 {
+			okRm = true
+		}
+	}
+	r.Check(okRm, "rotation:oldest-removed-first", mb.Pos(), "the oldest backup is removed recursively before the renames shift the others", "makeBackup no longer removes the oldest backup (recursively) before shifting the others: once all slots are used the rename fails and the live data folder is not moved away")
+	// the final move of the live folder is makeBackup's result
+	okMove := false
+	for _, lf := range returnLeaves(mb, 0) {
+		if call, _ := originCall(lf.Val); call != nil && nameMatches(callName(call.Common()), "=os.Rename") {
+			okMove = true
+		}
+	}
+	r.Check(okMove, "rotation:moves-live-folder", mb.Pos(), "the live data folder is renamed into the first backup slot and that result is returned", "makeBackup does not end by renaming the live data folder into the first backup slot")
+	// CleanupRaft: every path either removes the folder or makes the backup
+	okPaths := true
+	for _, ret := range returnsOf(cr) {
+		b := ret.Block()
+		dom := false
+		for _, ci := range findCalls(cr, false, "=os.RemoveAll", "raft.dataBackupHelper).makeBackup") {
+			if ci.Block() == b || ci.Block().Dominates(b) {
+				dom = true
+			}
+		}
+		if !dom {
+			okPaths = false
+		}
+	}
+	r.Check(okPaths, "cleanup:every-path", cr.Pos(), "every exit of CleanupRaft is dominated by the removal or the backup of the data folder", "CleanupRaft can return without having removed or backed up the data folder")
 }
